@@ -8,4 +8,3 @@ CONSTANTS
 INIT Init
 NEXT Next
 INVARIANT ClientNeverSelected
-INVARIANT ImplMeetsContract
